@@ -8,8 +8,8 @@ from props import rt
 PID = "C01"
 LEVEL = "proof"
 MODULE = "Sigc.Props.C01"
-EXTRA_MODULES = ("Sigc.Props.Refine", "Sigc.Props.SpecK", "Sigc.Props.SpecProps",)   # refinement P ⊑ S', S' ≡ S on runs clear of the known findings, the statements read off S
-REQUIRED = ["Sigc.C01.connect_appends", "Sigc.C01.connect_first_prepends", "Sigc.C01.turns_eq_snapshot", "Sigc.C01.turns_are_old_cells", "Sigc.Refine.refines", "Sigc.Refine.runProgram_refines", "Sigc.Refine.refines_calls", "Sigc.SpecK.model_refines_pure_spec"]
+EXTRA_MODULES = ("Sigc.Props.Refine", "Sigc.Props.Fuel", "Sigc.Props.SpecK", "Sigc.Props.SpecProps",)   # refinement P ⊑ S', S' ≡ S on runs clear of the known findings, the statements read off S
+REQUIRED = ["Sigc.C01.connect_appends", "Sigc.C01.connect_first_prepends", "Sigc.C01.turns_eq_snapshot", "Sigc.C01.turns_are_old_cells", "Sigc.Fuel.terminates", "Sigc.Fuel.runProgram_fuel_independent", "Sigc.Refine.refines", "Sigc.Refine.runProgram_refines", "Sigc.Refine.refines_calls", "Sigc.SpecK.model_refines_pure_spec"]
 TRUSTED = rt.TRUSTED_RT
 ASSUMPTIONS = rt.ASSUMPTIONS_RT + []
 PARTIAL = []
